@@ -38,6 +38,7 @@ def run(ctx):
         return mcat.confirm_filter(ctx, f) if f.payload.get("family") == "mcat-filter" else lcf(f)
     confirm.in_context = lcf.in_context       # (only the live sessions carry a history)
     ctx.report(fails, confirm)
+    live.finish(ctx)
 
 
 def replay(ctx, payload):
